@@ -1143,10 +1143,10 @@ class SInterp:
                     flow.normal += [st2 for _v, st2 in self.eval(s.value, st)]
         elif isinstance(s, ast.Return):
             for st in states:
-                if s.value is None:
-                    flow.ret.append((None, st))
-                else:
-                    flow.ret += self.eval(s.value, st)
+                rs = [(None, st)] if s.value is None else self.eval(s.value, st)
+                for v, st2 in rs:
+                    self.event("return", s, v, st2, self.depth)
+                flow.ret += rs
         elif isinstance(s, ast.Raise):
             name = "Exception"
             if s.exc is not None:
@@ -1627,8 +1627,7 @@ class SInterp:
 
             def pre(v: AStr, s: State, node: ast.AST, k: int = k) -> None:
                 short = v.all & L_length(self.K, 0, k)
-                if not short.is_empty():
-                    self.event("index-error", node, short, s)
+                self.event("index", node, None if short.is_empty() else short, s)
 
             return e.value, fst_charat(A, k), pre
         if isinstance(e, ast.Call):
@@ -1924,7 +1923,7 @@ class SInterp:
             k = self._concrete_int(e.slice, s)
             if isinstance(v, (tuple, list, str)) and k is not None:
                 if not -len(v) <= k < len(v):
-                    self.event("index-error", e, None, s)
+                    self.event("index", e, L_eps(self.K), s)
                     continue
                 out.append((v[k], s))
             elif isinstance(v, ASeq):
@@ -2124,7 +2123,7 @@ def _as_load(t: ast.AST) -> ast.AST:
 def _int_range(op: type, k: int) -> tuple[int, int | None, bool] | None:
     """count `op` k  ->  (lo, hi, negate)"""
     if op is ast.Lt:
-        return (0, k - 1, False) if k >= 1 else (0, 0, True) if k == 0 and False else ((0, -1, False) if False else _empty_range(k))
+        return (0, k - 1, False) if k >= 1 else _empty_range(k)
     if op is ast.LtE:
         return (0, k, False) if k >= 0 else _empty_range(0)
     if op is ast.Gt:
@@ -2166,8 +2165,17 @@ def collect_literals(nodes: Iterable[ast.AST]) -> tuple[set, list]:
     as a regex and is used as first argument of re.* contributes its literals and ranges."""
     singles: set = set()
     sets: list = []
+    skip: set = set()
     for root in nodes:
         for n in ast.walk(root):
+            if isinstance(n, ast.Expr) and isinstance(n.value, ast.Constant):
+                skip.add(id(n.value))  # docstrings
+            elif isinstance(n, ast.Raise):
+                skip |= {id(x) for x in ast.walk(n)}  # error messages
+    for root in nodes:
+        for n in ast.walk(root):
+            if id(n) in skip:
+                continue
             if isinstance(n, ast.Call):
                 nm = _dotted(n.func) or ""
                 if nm.startswith("re.") and n.args and isinstance(n.args[0], ast.Constant) and isinstance(n.args[0].value, str):
@@ -2180,3 +2188,251 @@ def collect_literals(nodes: Iterable[ast.AST]) -> tuple[set, list]:
                 elif len(n.value) <= 64:
                     sets.append(set(n.value))
     return singles, sets
+
+
+# =====================================================================================
+# C32 proper
+# =====================================================================================
+
+EXPLANATION = (
+    "Abstract interpretation of `find_deployment_id` (+ the helpers it calls, inlined) in control_plane/k8s_client.py. Every string "
+    "is a regular language over a symbolic alphabet whose letters are classes of Unicode characters that no operation of the code can "
+    "tell apart (classes derived on every run from the code's own character sets and from CPython's str.lower/isalpha/isdigit tables "
+    "over all 1.1M code points, so the result holds for every Unicode display name of every length). Transfer functions: lower(), "
+    "re.sub for the three pattern shapes (class substitution, run collapsing, anchored deletion; effect derived from the regex AST), "
+    "slicing, strip, concatenation/f-strings, random.choice(s) with a provenance mark, branches refined by len()/truthiness/"
+    "first-character tests, the retry loop to a fixpoint. "
+    "R1: the language of every returned value is included in the language of `_DNS_1035_RE` (regex AST from core/schema/deployments.py, "
+    "`$` read strictly) and in length <= 63, and no subscript can raise IndexError for any name. "
+    "R2: (a) for names whose lowercased form has k = 0, 1, 2 ASCII alphanumerics, no returned id is free of a randomly drawn part; "
+    "(b) for names with >= 3 of them and force_suffix=False the first candidate offered to the availability check has no random part; "
+    "(c) for names with exactly 3 of them (length <= 20) that candidate still has >= 3 alphanumerics (none was dropped). "
+    "Not decided: uniqueness against the cluster (validate_deployment_id is an oracle that may answer anything), that the kept "
+    "alphanumerics are the same characters in the same order (only their number), quality of the randomness."
+)
+TRUSTED = ["CPython ast, re._parser (regex ASTs), str.lower/isalpha/isdigit/isalnum tables", "random.choices/choice return members of the given population"]
+LEVEL_NOTE = "necessary conditions decided exactly on a regular-language abstraction; sound for all Unicode names and lengths; not a proof of uniqueness"
+TECHNIQUE = "abstract interpretation over regular languages (symbolic alphabet, transducer images, language inclusion)"
+
+K8S = "llama_agents.control_plane.k8s_client"
+CORE = "llama_agents.core.schema.deployments"
+ENTRY = "find_deployment_id"
+ORACLE = "validate_deployment_id"
+DNS_CONST = "_DNS_1035_RE"
+MAXLEN = 63
+FIXTURE = "fixtures/c32/planted.py"
+
+
+def _const_regex(consts: dict[str, ast.AST], name: str) -> str:
+    v = consts.get(name)
+    if isinstance(v, ast.Call) and (_dotted(v.func) or "").endswith("compile") and v.args and isinstance(v.args[0], ast.Constant) and isinstance(v.args[0].value, str) and len(v.args) == 1 and not v.keywords:
+        return v.args[0].value
+    raise AnchorError(f"`{name}` is not a module-level re.compile(<constant pattern>)")
+
+
+def _reachable_functions(functions: dict[str, ast.AST], entry: str) -> dict[str, ast.AST]:
+    out: dict[str, ast.AST] = {}
+    todo = [entry]
+    while todo:
+        n = todo.pop()
+        if n in out or n not in functions:
+            continue
+        out[n] = functions[n]
+        for c in ast.walk(functions[n]):
+            if isinstance(c, ast.Call) and isinstance(c.func, ast.Name):
+                todo.append(c.func.id)
+    return out
+
+
+class _Analysis:
+    """All C32 queries on one module (the repo's, or the planted fixture)."""
+
+    def __init__(self, functions: dict[str, ast.AST], consts: dict[str, ast.AST], dns_pattern: str):
+        if ENTRY not in functions:
+            raise AnchorError(f"function `{ENTRY}` not found")
+        self.entry = functions[ENTRY]
+        reach = _reachable_functions(functions, ENTRY)
+        self.inline = {k: v for k, v in reach.items() if k not in (ENTRY, ORACLE)}
+        if not any(isinstance(c, ast.Call) and _dotted(c.func) == ORACLE for c in ast.walk(self.entry)):
+            raise AnchorError(f"`{ENTRY}` no longer consults `{ORACLE}`")
+        singles, sets = collect_literals([self.entry] + list(self.inline.values()))
+        s1, s2 = regex_charsets(dns_pattern)
+        lower, digits = set("abcdefghijklmnopqrstuvwxyz"), set("0123456789")
+        try:
+            self.A = Alphabet(singles | s1, sets + s2 + [lower, digits])
+            self.K = self.A.K
+            self.dns = regex_match_lang(self.A, dns_pattern, strict_end=True) & L_length(self.K, 0, MAXLEN)
+        except Unsupported as e:
+            raise AnchorError(f"C32: cannot build the alphabet / label language: {e}")
+        self.consts = consts
+        self.alnum = self.A.of_chars(lower | digits)
+        self.lower_fst = fst_map(self.A, self.A.lower_image)
+        params = [p.arg for p in self.entry.args.args]
+        if len(params) < 1:
+            raise AnchorError(f"`{ENTRY}` has no name parameter")
+        self.name_param = params[0]
+        self.flag_param = next((p.arg for p in self.entry.args.args[1:] + self.entry.args.kwonlyargs if "suffix" in p.arg), None)
+
+    def names_with(self, lo: int, hi: int | None, maxlen: int | None = None) -> DFA:
+        """Display names whose lowercased form contains lo..hi ASCII alphanumerics."""
+        d = L_count(self.K, self.alnum, lo, hi).preimage(self.lower_fst)
+        if maxlen is not None:
+            d = d & L_length(self.K, 0, maxlen)
+        return d
+
+    def run(self, names: DFA, force: Any = UNKNOWN) -> dict:
+        def h_choices(ip, node, args, kw, st):
+            k = kw.get("k", 1)
+            if not args or not isinstance(args[0], str) or not isinstance(k, int):
+                raise Unsupported("random.choices with a non-constant population or k")
+            return [(ASeq(AStr(L_empty(ip.K), L_chars(ip.K, ip.chars_of(args[0]))), k, k), st)]
+
+        def h_choice(ip, node, args, kw, st):
+            if not args or not isinstance(args[0], str):
+                raise Unsupported("random.choice with a non-constant population")
+            return [(AStr(L_empty(ip.K), L_chars(ip.K, ip.chars_of(args[0]))), st)]
+
+        def h_oracle(ip, node, args, kw, st):
+            n = st.meta.get("oracle", 0)
+            ip.event("oracle", node, args[0] if args else UNKNOWN, n)
+            return [(UNKNOWN, st.with_meta("oracle", min(n + 1, 2)))]
+
+        ip = SInterp(self.A, self.inline, self.consts, {"random.choices": h_choices, "random.choice": h_choice, ORACLE: h_oracle, "re.compile": hook_re_compile})
+        args = {self.name_param: AStr(names)}
+        if self.flag_param is not None and force is not UNKNOWN:
+            args[self.flag_param] = force
+        try:
+            rets = ip.call_function(self.entry, args)
+        except Unsupported as e:
+            raise AnchorError(f"C32: `{ENTRY}` uses a construct the string interpreter does not model: {e}")
+        out = {"returns": {}, "first": [], "index": {}, "oracle_calls": 0, "raises": []}
+        for ev in ip.events:
+            if ev[0] == "return" and ev[4] == 1:
+                if ev[2] is None and ev[1].value is None:
+                    continue
+                out["returns"].setdefault(id(ev[1]), (ev[1], []))[1].append(ev[2])
+                if ev[3].meta.get("oracle", 0) == 0:
+                    out["first"].append(ev[2])
+            elif ev[0] == "oracle":
+                out["oracle_calls"] += 1
+                if ev[3] == 0:
+                    out["first"].append(ev[2])
+            elif ev[0] == "index":
+                node, short = ev[1], ev[2]
+                cur = out["index"].setdefault(id(node), (node, None))
+                if short is not None:
+                    out["index"][id(node)] = (node, short if cur[1] is None else (cur[1] | short))
+            elif ev[0] == "raise":
+                out["raises"].append(ev[1])
+        for v, _st in rets:
+            if v is None:
+                out["returns"].setdefault(0, (self.entry, [])).__getitem__(1).append(None)
+        return out
+
+    def show(self, w: tuple | None) -> str:
+        return "<none>" if w is None else repr(self.A.render(w))
+
+
+def _astrs(vals: list, what: str) -> list[AStr]:
+    out = []
+    for v in vals:
+        if isinstance(v, str):
+            raise AnchorError(f"C32: {what} is a constant string — unexpected shape")
+        if not isinstance(v, AStr):
+            raise AnchorError(f"C32: {what} is not a string the interpreter could follow ({type(v).__name__})")
+        out.append(v)
+    return out
+
+
+def _evaluate(an: _Analysis):
+    """Yield (rule, instance, description, ok, node, reason) for one module."""
+    K = an.K
+    # ---------------- R1
+    r = an.run(L_all(K))
+    if not r["returns"]:
+        raise AnchorError(f"C32.R1: no return of `{ENTRY}` was reached")
+    n_ret = 0
+    for node, vals in r["returns"].values():
+        n_ret += 1
+        lang = L_union(K, [v.all for v in _astrs(vals, "a returned value")])
+        bad = lang - an.dns
+        w = bad.shortest()
+        why = ""
+        if w is not None:
+            why = f"e.g. {an.show(w)} (length {len(w)}) can be returned and is not a DNS-1035 label of at most {MAXLEN} characters"
+        yield ("C32.R1", "return", f"every value returned by `{ENTRY}` (all Unicode names, any force_suffix, any oracle answers) is a DNS-1035 label of <= {MAXLEN} characters", w is None, node, why)
+    idx = list(r["index"].values())
+    for i, (node, short) in enumerate(sorted(idx, key=lambda t: (t[0].lineno, t[0].col_offset))):
+        yield ("C32.R1", f"subscript:{ast.unparse(node.value) if isinstance(node, ast.Subscript) else i}", f"`{ast.unparse(node)}` cannot raise IndexError for any name", short is None, node,
+               "" if short is None else f"the subscripted string can be {an.show(short.shortest())}")
+    yield ("floor", "returns", "", True, None, n_ret)
+    yield ("floor", "subscripts", "", True, None, len(idx))
+    yield ("floor", "oracle", "", True, None, r["oracle_calls"])
+    # ---------------- R2a
+    for k in (0, 1, 2):
+        rk = an.run(an.names_with(k, k))
+        vals = [v for _n, vs in rk["returns"].values() for v in vs]
+        plain = L_union(K, [v.plain for v in _astrs(vals, "a returned value")])
+        w = plain.shortest()
+        yield ("C32.R2", f"alnum={k}", f"a name with {k} alphanumeric(s) never yields an id without a random part", w is None, an.entry,
+               "" if w is None else f"id {an.show(w)} is returned with no random part for some name with {k} alphanumeric character(s)")
+    # ---------------- R2b
+    rb = an.run(an.names_with(3, None), force=False) if an.flag_param else an.run(an.names_with(3, None))
+    first = _astrs(rb["first"], "a first candidate")
+    if not first:
+        raise AnchorError("C32.R2: no first candidate observed")
+    rand = L_union(K, [v.rand for v in first])
+    w = rand.shortest()
+    yield ("C32.R2", "alnum>=3:first-candidate", "for a name with >= 3 alphanumerics (force_suffix off) the first candidate id has no random part", w is None, an.entry,
+           "" if w is None else f"first candidate can be the randomised {an.show(w)}")
+    # ---------------- R2c
+    rc = an.run(an.names_with(3, 3, 20), force=False) if an.flag_param else an.run(an.names_with(3, 3, 20))
+    cand = L_union(K, [v.all for v in _astrs(rc["first"], "a first candidate")])
+    lost = cand - L_count(K, an.alnum, 3, None)
+    w = lost.shortest()
+    yield ("C32.R2", "alnum-kept:k=3", "for a short name with exactly 3 alphanumerics the first candidate id still contains >= 3 alphanumerics", w is None, an.entry,
+           "" if w is None else f"first candidate can be {an.show(w)}: an alphanumeric of the name was dropped")
+
+
+def run(chk) -> None:
+    repo = chk.repo
+    m = repo.module(K8S)
+    core = repo.module(CORE)
+    dns = _const_regex(module_consts(core), DNS_CONST)
+    top = {n.name: n for n in m.tree.body if isinstance(n, FuncNode)}
+    an = _Analysis(top, module_consts(m), dns)
+    floors = {}
+    for rule, inst, desc, ok, node, reason in _evaluate(an):
+        if rule == "floor":
+            floors[inst] = reason
+            continue
+        fn = an.entry
+        if node is not None and node is not an.entry:
+            from ..index import enclosing_function
+
+            fn = enclosing_function(node) or an.entry
+        chk.ob(rule, desc, ok, m=m, node=node, fn=fn, instance=inst, reason=reason)
+    chk.floor("C32.R1", "return sites of find_deployment_id analysed", floors.get("returns", 0), 1)
+    chk.floor("C32.R1", "character subscripts checked for IndexError", floors.get("subscripts", 0), 2)
+    chk.floor("C32.R2", "availability-oracle consultations observed", floors.get("oracle", 0), 1)
+    chk.exhaustive = True
+    chk.extra["alphabet"] = [a.desc for a in an.A.atoms]
+
+    # planted fixture: both rules must report it on every run
+    src = (Path(__file__).resolve().parents[2] / FIXTURE)
+    if not src.is_file():
+        raise AnchorError(f"fixture {FIXTURE} missing")
+    tree = ast.parse(src.read_text())
+    ftop = {n.name: n for n in tree.body if isinstance(n, FuncNode)}
+    fcon = {n.targets[0].id: n.value for n in tree.body if isinstance(n, ast.Assign) and isinstance(n.targets[0], ast.Name)}
+    fan = _Analysis(ftop, fcon, dns)
+    res = [(rule, inst, ok) for rule, inst, _d, ok, _n, _r in _evaluate(fan) if rule != "floor"]
+    chk.floor("C32.R1", "planted invalid-label returns reported in the fixture", sum(1 for r_, i, ok in res if r_ == "C32.R1" and i == "return" and not ok), 1)
+    chk.floor("C32.R2", "planted unsuffixed short ids reported in the fixture", sum(1 for r_, i, ok in res if r_ == "C32.R2" and i.startswith("alnum=") and not ok), 1)
+    chk.observe("uniqueness against the cluster is not analysed: validate_deployment_id is treated as an oracle that may answer anything; after 99 collisions the function raises ValueError")
+
+
+from pathlib import Path  # noqa: E402
+
+_P = "packages/llama-agents-control-plane/src/llama_agents/control_plane/k8s_client.py"
+TWINS: list[Twin] = []
